@@ -36,6 +36,7 @@ def op (w : BitVec 64) : List String → Option (BitVec 64 × String)
   | ["into_lsb"] => some (w, if intoLsb_pre w then s!"{(intoLsb w).toNat}" else "panic")
   | ["from_lsb"] =>
     some (w, if fromLsb_pre w then s!"{(fromLsb w).toNat}" else "panic")
+  | ["clear"] => some (clear w, s!"{(clear w).toNat}")
   | _ => none
 
 def splitOps (toks : List String) : List (List String) :=
@@ -46,6 +47,20 @@ def run : List String → String
   | ["bits_for", n] =>
     match w? n with
     | some n => if bitsFor_pre n then s!"{(bitsFor n).toNat}" else "panic"
+    | none => "bad-op"
+  | ["new", v] =>
+    match w? v with
+    | some v => match new_ v with
+      | some p => s!"some {p.toNat}"
+      | none => "none"
+    | none => "bad-op"
+  | ["new_from_lsb", v] =>
+    match w? v with
+    | some v =>
+      if v ≠ 0 ∧ !(fromLsb_pre v) then "panic" else
+      match newFromLsb v with
+      | some p => s!"some {p.toNat}"
+      | none => "none"
     | none => "bad-op"
   | "word" :: w :: rest =>
     match w? w with
